@@ -79,21 +79,34 @@ def apply_edits(repo, edits):
 
 
 def patch_overrides(repo, patch_text):
-    """apply a unified diff in memory (hunks located by their text, not their line numbers); None when a hunk's
-    old text is not present exactly once"""
+    """apply a unified diff in memory: hunks are located by their text (the occurrence nearest to the stated line when
+    the text occurs more than once); files the diff adds become new modules; None when a hunk cannot be placed"""
+    import re
     ov = {}
     rel = None
+    old_rel = None
     hunks = []
     cur = None
     for line in patch_text.splitlines():
+        if line.startswith('--- '):
+            old_rel = line[4:].strip()
+            continue
         if line.startswith('+++ '):
             rel = line[4:].strip()
             rel = rel[2:] if rel.startswith(('a/', 'b/')) else rel
+            if rel == '/dev/null':
+                return None                 # a deleted module: not handled in memory
             continue
-        if line.startswith('--- ') or line.startswith('diff ') or line.startswith('index '):
+        if line.startswith('diff ') or line.startswith('index ') or line.startswith('new file') \
+                or line.startswith('deleted file') or line.startswith('old mode') or line.startswith('new mode') \
+                or line.startswith('similarity ') or line.startswith('rename '):
+            if line.startswith('rename '):
+                return None
             continue
         if line.startswith('@@'):
-            cur = {'rel': rel, 'old': [], 'new': []}
+            m_ = re.match(r'@@ -(\d+)', line)
+            cur = {'rel': rel, 'old': [], 'new': [], 'at': int(m_.group(1)) if m_ else 0,
+                   'created': old_rel == '/dev/null'}
             hunks.append(cur)
             continue
         if cur is None or line.startswith('\\'):
@@ -107,15 +120,41 @@ def patch_overrides(repo, patch_text):
             cur['old'].append(body)
             cur['new'].append(body)
     for h in hunks:
-        m = [x for x in repo.modules.values() if x.relpath == h['rel']]
-        if not m:
-            return None
-        text = ov.get(h['rel'], m[0].text)
-        old = '\n'.join(h['old']) + '\n'
         new = '\n'.join(h['new']) + '\n'
-        if text.count(old) != 1:
+        if '/tests/' in '/' + (h['rel'] or '') or not (h['rel'] or '').endswith('.py'):
+            continue                        # not part of what is analysed
+        if h['created']:
+            ov[h['rel']] = ov.get(h['rel'], '') + new
+            continue
+        m = [x for x in repo.modules.values() if x.relpath == h['rel']]
+        if not m and h['rel'] not in ov:
             return None
-        ov[h['rel']] = text.replace(old, new)
+        text = ov.get(h['rel'], m[0].text if m else '')
+        old = '\n'.join(h['old']) + '\n'
+        n_occ = text.count(old)
+        if n_occ == 0 and text.endswith(old[:-1]):
+            # the hunk reaches the end of a file that has no final newline
+            ov[h['rel']] = text[:len(text) - len(old) + 1] + new[:-1]
+            continue
+        if n_occ == 0:
+            return None
+        if n_occ == 1:
+            ov[h['rel']] = text.replace(old, new)
+            continue
+        # the occurrence whose first line is nearest to the line the hunk names
+        best, pos = None, -1
+        while True:
+            pos = text.find(old, pos + 1)
+            if pos < 0:
+                break
+            if pos and text[pos - 1] != '\n':
+                continue
+            ln = text.count('\n', 0, pos) + 1
+            if best is None or abs(ln - h['at']) < abs(best[0] - h['at']):
+                best = (ln, pos)
+        if best is None:
+            return None
+        ov[h['rel']] = text[:best[1]] + new + text[best[1] + len(old):]
     return ov or None
 
 
